@@ -5,20 +5,33 @@ set_option maxRecDepth 100000
 /-
 C18 (pure half: affinity only) — the worker chosen for a packet is a function of its connection
 identity alone and a valid worker index. Property theorems only (helpers: Huginn/Lemmas/Wire.lean).
-The concurrent accounting half of C18 (queued / dropped / counters under all interleavings) is a
-separate development on top of this hash model.
+The concurrent accounting half of C18 (queued / dropped / counters under all interleavings) is
+Props/C18Pool.lean.
 
 Every theorem holds for *every* hash function `H : HashIn → Nat` (`DefaultHasher` is one instance,
 implemented in Model/SipHash.lean only so that the driver can compare indices exactly).
 
+Model: the hashers as repaired by fixes/C18-hashers-locate-ip-like-parser.patch — `locate_ip` finds the IP
+header exactly as `packet_parser::parse_packet` does (`hashers_locate_as_parser`, for every byte string).
+
 Two notions of identity, both proved:
- (A) what the analyzer itself decodes (`analyzerEndpoints`): frames the analyzer keys to the same
-     connection state reach the same worker — what parallel ≡ sequential (C10) needs;
- (B) the endpoints of a well-formed frame of a declared link type (`wireEndpoints`, read off the
-     RFCs): what the property statement says literally.
-The full statements are false for the code as it is; the exclusion classes `KF.C18.*` each have a
-kernel-checked witness below. (The former class IPv4 IHL < 5 was removed by fix 68f354c: the
-hashers read the ports at max(ihl*4, 20) like pnet.)
+ (A) what the analyzer itself decodes. "A frame the analyzer accepts" is `analyzerView a p = some v`
+     (equivalently `analyzerEndpoints a p = some e`, `identityX p = some k`) of Model/Wire.lean — the
+     packet-parser model `parsePacket` shared with C15 and C01: `parse_packet` succeeds under one of its three
+     framings (Ethernet by ethertype, raw IP by version nibble, loopback `1e 00`), the protocol is TCP,
+     `TcpPacket::new(ip.payload())` succeeds, and the analyzer's own gate before its first state access
+     passes. Frames the analyzer keys to the same connection state reach the same worker — what
+     parallel ≡ sequential (C10) needs. **Full strength**: `affinity_tcp / affinity_tls / affinity_http` have
+     no exclusion class and no hypothesis besides the two identities (not even `0 < n`).
+ (B) the endpoints of a well-formed frame of a *declared* link type (`wireEndpoints`, read off the RFCs).
+     One explicit hypothesis remains, `LinkHonoured fr f`: `parse_packet` — which is handed bytes only, never
+     the capture's link type — takes the frame for that link type. Always true for Ethernet
+     (`linkHonoured_eth`); for raw IP it is exactly "the parser's Ethernet strategy does not fire"
+     (`linkHonoured_raw`). Where it fails (raw IPv4 of ≥ 34 bytes from 8.0.x.x) the *analyzers* decode another
+     frame, so there is no per-connection state to keep together; `sniffing_limit_example` records it.
+The former exclusion classes KF.C18.looksLikeEthernet / nullFraming / versionNibble (and, earlier, IPv4
+IHL < 5, fix 68f354c) are gone; their witnesses are regression theorems below and the first cases of the
+harness.
 -/
 namespace Huginn.Props.C18
 open Huginn.Wire Huginn.Wire.Spec
@@ -42,9 +55,23 @@ theorem worker_tls_lt (H : HashIn → Nat) (n : Nat) (hn : 0 < n) (p : Bytes) (k
 
 example : workerTls sumH 16 wOkA = some 15 ∧ workerTcp sumH 16 wOkA = 11 := by decide
 
+/-! ### the hashers locate the IP header as the parser does -/
+
+/-- **hashers_locate_as_parser.** For every byte string, `locate_ip` of the three hashers returns
+the offset and IP version of the packet `parse_packet` hands to the analyzers — and `None` exactly
+when `parse_packet` rejects the frame. -/
+theorem hashers_locate_as_parser (p : Bytes) :
+    locateIp p = (parsePacket p).map (fun l => (l.fr.offset, l.ver)) ∧
+    ∀ l, parsePacket p = some l → l.ip = p.drop l.fr.offset :=
+  ⟨locateIp_eq_parse p, parsePacket_ip p⟩
+
+example : locateIp wNull4a = some (4, .v4) ∧ locateIp wRaw134a = some (0, .v4) ∧
+    locateIp wNib5a = some (14, .v4) ∧ locateIp wOkA = some (14, .v4) ∧ locateIp wNull6a = some (4, .v6) ∧
+    locateIp (wOkA.take 30) = none := by decide
+
 /-! ### (A) identity = what the analyzer sees -/
 
-/-- The full statements (false, see the witnesses). -/
+/-- The full statements (true of the repaired hashers: `full_affinity_*`). -/
 def FullAffinityTcp : Prop :=
   ∀ (H : HashIn → Nat) (n : Nat) (f₁ f₂ : Bytes) (k : IpVer × Bytes), 0 < n →
     identityTcp f₁ = some k → identityTcp f₂ = some k → workerTcp H n f₁ = workerTcp H n f₂
@@ -55,11 +82,11 @@ def FullAffinityTls : Prop :=
   ∀ (H : HashIn → Nat) (n : Nat) (f₁ f₂ : Bytes) (k : Ep), 0 < n →
     identityTls f₁ = some k → identityTls f₂ = some k → workerTls H n f₁ = workerTls H n f₂
 
-/-- **affinity_tcp.** Two frames in which the TCP analyzer sees the same source address reach the
-same worker, for every hash function and worker count — whatever their payload, flags, lengths,
-ports, destination, IP header length. (Outside the framing classes.) -/
-theorem affinity_tcp_partial (H : HashIn → Nat) (n : Nat) (f₁ f₂ : Bytes) (k : IpVer × Bytes)
-    (h₁ : ¬ KF.C18.seen .tcp f₁) (h₂ : ¬ KF.C18.seen .tcp f₂)
+/-- **affinity_tcp.** Two frames the TCP analyzer accepts — under any of the three framings, not
+necessarily the same one — and in which it sees the same source address reach the same worker, for
+every hash function and worker count: whatever their framing, payload, flags, lengths, ports,
+destination, IP header length. -/
+theorem affinity_tcp (H : HashIn → Nat) (n : Nat) (f₁ f₂ : Bytes) (k : IpVer × Bytes)
     (i₁ : identityTcp f₁ = some k) (i₂ : identityTcp f₂ = some k) :
     workerTcp H n f₁ = workerTcp H n f₂ := by
   unfold identityTcp analyzerEndpoints at i₁ i₂
@@ -71,19 +98,26 @@ theorem affinity_tcp_partial (H : HashIn → Nat) (n : Nat) (f₁ f₂ : Bytes) 
     | some v₂ =>
       simp only [hv₁, hv₂, Option.map_some, Option.some.injEq, View.ep] at i₁ i₂
       unfold workerTcp
-      rw [hashInputTcp_seen .tcp f₁ v₁ hv₁ h₁, hashInputTcp_seen .tcp f₂ v₂ hv₂ h₂]
+      rw [hashInputTcp_view .tcp f₁ v₁ hv₁, hashInputTcp_view .tcp f₂ v₂ hv₂]
       have : v₁.loc.src = v₂.loc.src := by
         have a := congrArg Prod.snd i₁; have b := congrArg Prod.snd i₂
         simp only at a b; rw [a, b]
       rw [this]
 
-example : ¬ KF.C18.seen .tcp wOkA ∧ ¬ KF.C18.seen .tcp wOkB ∧
-    identityTcp wOkA = identityTcp wOkB ∧ identityTcp wOkA ≠ none ∧ wOkA ≠ wOkB := by decide
+-- non-vacuity, one pair per framing: Ethernet; raw IP (the 134.221.1.1 SYN and its retransmission:
+-- bytes 12–13 = `86 dd`); loopback; Ethernet with ethertype 0800 and version nibble 5; and two
+-- *different* framings of the same source address
+example : identityTcp wOkA = identityTcp wOkB ∧ identityTcp wOkA ≠ none ∧ wOkA ≠ wOkB := by decide
+example : identityTcp wRaw134a = identityTcp wRaw134b ∧ identityTcp wRaw134a ≠ none ∧
+    wRaw134a ≠ wRaw134b := by decide
+example : identityTcp wNull4a = identityTcp wNull4b ∧ identityTcp wNull4a ≠ none ∧
+    wNull4a ≠ wNull4b := by decide
+example : identityTcp wNib5a = identityTcp wNib5b ∧ identityTcp wNib5a ≠ none ∧ wNib5a ≠ wNib5b := by decide
+example : identityTcp wNull4a = identityTcp wOkB ∧ identityTcp wNull4a ≠ none := by decide
 
-/-- **affinity_tls.** Same directed 4-tuple as the TLS analyzer sees it ⇒ same worker (or both
-discarded). -/
-theorem affinity_tls_partial (H : HashIn → Nat) (n : Nat) (f₁ f₂ : Bytes) (k : Ep)
-    (h₁ : ¬ KF.C18.seen .tls f₁) (h₂ : ¬ KF.C18.seen .tls f₂)
+/-- **affinity_tls.** Two frames the TLS analyzer accepts with the same directed 4-tuple reach the
+same worker — and neither is discarded by the dispatcher (`tls_accepted_not_discarded`). -/
+theorem affinity_tls (H : HashIn → Nat) (n : Nat) (f₁ f₂ : Bytes) (k : Ep)
     (i₁ : identityTls f₁ = some k) (i₂ : identityTls f₂ = some k) :
     workerTls H n f₁ = workerTls H n f₂ := by
   unfold identityTls analyzerEndpoints at i₁ i₂
@@ -95,12 +129,32 @@ theorem affinity_tls_partial (H : HashIn → Nat) (n : Nat) (f₁ f₂ : Bytes) 
     | some v₂ =>
       simp only [hv₁, hv₂, Option.map_some, Option.some.injEq] at i₁ i₂
       unfold workerTls
-      rw [hashInputTls_seen .tls f₁ v₁ hv₁ h₁, hashInputTls_seen .tls f₂ v₂ hv₂ h₂, i₁, i₂]
+      rw [hashInputTls_view .tls f₁ v₁ hv₁, hashInputTls_view .tls f₂ v₂ hv₂, i₁, i₂]
 
-/-- **affinity_http**, relational form: the endpoints the HTTP analyzer sees in the two frames are
-equal up to direction ⇒ same worker. -/
+/-- A frame the TLS analyzer accepts is never discarded by the TLS dispatcher (`hash_flow` returns
+`Some`), under every framing. (More generally: a frame *any* analyzer's common decode accepts.) -/
+theorem tls_accepted_not_discarded (H : HashIn → Nat) (n : Nat) (f : Bytes) (k : Ep)
+    (i : identityTls f = some k) : workerTls H n f = some (remOr0 (H (.flow k.src k.dst k.sp k.dp)) n) := by
+  unfold identityTls analyzerEndpoints at i
+  cases hv : analyzerView .tls f with
+  | none => simp [hv] at i
+  | some v =>
+    simp only [hv, Option.map_some, Option.some.injEq] at i
+    unfold workerTls
+    rw [hashInputTls_view .tls f v hv, i]; rfl
+
+example : identityTls wOkB = identityTls wOkB ∧ identityTls wOkB ≠ none := by decide
+example : identityTls wNull4b = identityTls wOkB ∧ identityTls wNull4b ≠ none ∧
+    (workerTls sumH 16 wNull4b).isSome := by decide
+example : (identityTls wNull6a).map (fun e => (e.src, e.dst, e.sp, e.dp)) =
+      (identityTls wNull6b).map (fun e => (e.src, e.dst, e.sp, e.dp)) ∧
+    identityTls wNull6a = identityTls wNull6b ∧ identityTls wNull6a ≠ none ∧ wNull6a ≠ wNull6b := by decide
+example : identityTls wRaw9b ≠ none ∧ identityTls wNib5b ≠ none ∧ identityTls wRaw9b = identityTls wRaw9b := by
+  decide
+
+/-- **affinity_http**, relational form: the endpoints the HTTP analyzer sees in the two accepted
+frames are equal up to direction ⇒ same worker. -/
 theorem affinity_http_sameConn (H : HashIn → Nat) (n : Nat) (f₁ f₂ : Bytes) (e₁ e₂ : Ep)
-    (h₁ : ¬ KF.C18.seen .http f₁) (h₂ : ¬ KF.C18.seen .http f₂)
     (i₁ : analyzerEndpoints .http f₁ = some e₁) (i₂ : analyzerEndpoints .http f₂ = some e₂)
     (hc : SameConn e₁ e₂) : workerHttp H n f₁ = workerHttp H n f₂ := by
   unfold analyzerEndpoints at i₁ i₂
@@ -112,15 +166,16 @@ theorem affinity_http_sameConn (H : HashIn → Nat) (n : Nat) (f₁ f₂ : Bytes
     | some v₂ =>
       simp only [hv₁, hv₂, Option.map_some, Option.some.injEq] at i₁ i₂
       unfold workerHttp
-      rw [hashInputHttp_seen .http f₁ v₁ hv₁ h₁, hashInputHttp_seen .http f₂ v₂ hv₂ h₂, i₁, i₂]
+      rw [hashInputHttp_view .http f₁ v₁ hv₁, hashInputHttp_view .http f₂ v₂ hv₂, i₁, i₂]
       rcases hc with rfl | rfl
       · rfl
       · simp only [Ep.swap]
         rw [canonFlow_swap]
 
-/-- **affinity_http** in the `identity = some k` form, `k` an unordered endpoint pair. -/
-theorem affinity_http_partial (H : HashIn → Nat) (n : Nat) (f₁ f₂ : Bytes) (k : Conn)
-    (h₁ : ¬ KF.C18.seen .http f₁) (h₂ : ¬ KF.C18.seen .http f₂)
+/-- **affinity_http** in the `identity = some k` form, `k` an unordered endpoint pair: two frames
+the HTTP analyzer accepts and attributes to the same connection — either direction, any framing —
+reach the same worker. -/
+theorem affinity_http (H : HashIn → Nat) (n : Nat) (f₁ f₂ : Bytes) (k : Conn)
     (i₁ : identityHttp f₁ = some k) (i₂ : identityHttp f₂ = some k) :
     workerHttp H n f₁ = workerHttp H n f₂ := by
   unfold identityHttp at i₁ i₂
@@ -134,26 +189,37 @@ theorem affinity_http_partial (H : HashIn → Nat) (n : Nat) (f₁ f₂ : Bytes)
       have i₁' : Quotient.mk connSetoid e₁ = k := Option.some.inj i₁
       have i₂' : Quotient.mk connSetoid e₂ = k := Option.some.inj i₂
       have : SameConn e₁ e₂ := Quotient.exact (i₁'.trans i₂'.symm)
-      exact affinity_http_sameConn H n f₁ f₂ e₁ e₂ h₁ h₂ he₁ he₂ this
+      exact affinity_http_sameConn H n f₁ f₂ e₁ e₂ he₁ he₂ this
 
--- non-vacuity: two segments of one connection, and its two directions
-example : ¬ KF.C18.seen .http wOkA ∧ ¬ KF.C18.seen .http wOkRev ∧
-    (∃ e₁ e₂, analyzerEndpoints .http wOkA = some e₁ ∧ analyzerEndpoints .http wOkRev = some e₂ ∧
-      SameConn e₁ e₂ ∧ e₁ ≠ e₂) := by
-  refine ⟨by decide, by decide, _, _, rfl, rfl, by decide, by decide⟩
-example : identityTls wOkB ≠ none ∧ ¬ KF.C18.seen .tls wOkB := by decide
+-- non-vacuity: the two directions of one connection under each framing (Ethernet, raw IP with
+-- `86 dd` at bytes 12–13, loopback), and two segments of one direction
+example : ∃ e₁ e₂, analyzerEndpoints .http wOkA = some e₁ ∧ analyzerEndpoints .http wOkRev = some e₂ ∧
+      SameConn e₁ e₂ ∧ e₁ ≠ e₂ := ⟨_, _, rfl, rfl, by decide, by decide⟩
+example : ∃ e₁ e₂, analyzerEndpoints .http wRaw134a = some e₁ ∧
+      analyzerEndpoints .http wRaw134Rev = some e₂ ∧ SameConn e₁ e₂ ∧ e₁ ≠ e₂ :=
+  ⟨_, _, rfl, rfl, by decide, by decide⟩
+example : ∃ e₁ e₂, analyzerEndpoints .http wNull4b = some e₁ ∧
+      analyzerEndpoints .http wNull4Rev = some e₂ ∧ SameConn e₁ e₂ ∧ e₁ ≠ e₂ :=
+  ⟨_, _, rfl, rfl, by decide, by decide⟩
+example : analyzerEndpoints .http wNib5a = analyzerEndpoints .http wNib5b ∧
+    analyzerEndpoints .http wNib5a ≠ none := by decide
+
+/-- The full-strength statements hold. -/
+theorem full_affinity_tcp : FullAffinityTcp := fun H n f₁ f₂ k _ => affinity_tcp H n f₁ f₂ k
+theorem full_affinity_http : FullAffinityHttp := fun H n f₁ f₂ k _ => affinity_http H n f₁ f₂ k
+theorem full_affinity_tls : FullAffinityTls := fun H n f₁ f₂ k _ => affinity_tls H n f₁ f₂ k
 
 /-! ### (B) identity = endpoints of the well-formed frame of the declared link type -/
 
 theorem affinity_wire_tcp (fr : Framing) (H : HashIn → Nat) (n : Nat) (f₁ f₂ : Bytes) (e₁ e₂ : Ep)
-    (h₁ : ¬ KF.C18.wire fr f₁) (h₂ : ¬ KF.C18.wire fr f₂)
+    (h₁ : LinkHonoured fr f₁) (h₂ : LinkHonoured fr f₂)
     (i₁ : wireEndpoints fr f₁ = some e₁) (i₂ : wireEndpoints fr f₂ = some e₂)
     (hs : e₁.src = e₂.src) : workerTcp H n f₁ = workerTcp H n f₂ := by
   unfold workerTcp
   rw [hashInputTcp_wire fr f₁ e₁ i₁ h₁, hashInputTcp_wire fr f₂ e₂ i₂ h₂, hs]
 
 theorem affinity_wire_http (fr : Framing) (H : HashIn → Nat) (n : Nat) (f₁ f₂ : Bytes) (e₁ e₂ : Ep)
-    (h₁ : ¬ KF.C18.wire fr f₁) (h₂ : ¬ KF.C18.wire fr f₂)
+    (h₁ : LinkHonoured fr f₁) (h₂ : LinkHonoured fr f₂)
     (i₁ : wireEndpoints fr f₁ = some e₁) (i₂ : wireEndpoints fr f₂ = some e₂)
     (hc : SameConn e₁ e₂) : workerHttp H n f₁ = workerHttp H n f₂ := by
   unfold workerHttp
@@ -163,67 +229,136 @@ theorem affinity_wire_http (fr : Framing) (H : HashIn → Nat) (n : Nat) (f₁ f
   · simp only [Ep.swap]; rw [canonFlow_swap]
 
 theorem affinity_wire_tls (fr : Framing) (H : HashIn → Nat) (n : Nat) (f₁ f₂ : Bytes) (e : Ep)
-    (h₁ : ¬ KF.C18.wire fr f₁) (h₂ : ¬ KF.C18.wire fr f₂)
+    (h₁ : LinkHonoured fr f₁) (h₂ : LinkHonoured fr f₂)
     (i₁ : wireEndpoints fr f₁ = some e) (i₂ : wireEndpoints fr f₂ = some e) :
     workerTls H n f₁ = workerTls H n f₂ := by
   unfold workerTls
   rw [hashInputTls_wire fr f₁ e i₁ h₁, hashInputTls_wire fr f₂ e i₂ h₂]
 
-/-- A well-formed TLS-bearing frame outside the classes is never discarded by the TLS dispatcher. -/
+/-- A well-formed TLS-bearing frame which the parser takes for its link type is never discarded by
+the TLS dispatcher. -/
 theorem wire_tls_not_discarded (fr : Framing) (H : HashIn → Nat) (n : Nat) (f : Bytes) (e : Ep)
-    (h : ¬ KF.C18.wire fr f) (i : wireEndpoints fr f = some e) : (workerTls H n f).isSome := by
+    (h : LinkHonoured fr f) (i : wireEndpoints fr f = some e) : (workerTls H n f).isSome := by
   unfold workerTls; rw [hashInputTls_wire fr f e i h]; rfl
 
-example : ¬ KF.C18.wire .raw wRaw9a ∧ ¬ KF.C18.wire .raw wRaw9b ∧
+/-- Ethernet needs no hypothesis at all: well-formed Ethernet frames of one connection (HTTP: either
+direction) reach the same worker. -/
+theorem affinity_wire_eth (H : HashIn → Nat) (n : Nat) (f₁ f₂ : Bytes) (e₁ e₂ : Ep)
+    (i₁ : wireEndpoints .eth f₁ = some e₁) (i₂ : wireEndpoints .eth f₂ = some e₂) :
+    (e₁.src = e₂.src → workerTcp H n f₁ = workerTcp H n f₂) ∧
+    (SameConn e₁ e₂ → workerHttp H n f₁ = workerHttp H n f₂) ∧
+    (e₁ = e₂ → workerTls H n f₁ = workerTls H n f₂ ∧ (workerTls H n f₁).isSome) := by
+  have h₁ := linkHonoured_eth f₁ e₁ i₁
+  have h₂ := linkHonoured_eth f₂ e₂ i₂
+  refine ⟨affinity_wire_tcp .eth H n f₁ f₂ e₁ e₂ h₁ h₂ i₁ i₂,
+    affinity_wire_http .eth H n f₁ f₂ e₁ e₂ h₁ h₂ i₁ i₂, ?_⟩
+  rintro rfl
+  exact ⟨affinity_wire_tls .eth H n f₁ f₂ e₁ h₁ h₂ i₁ i₂, wire_tls_not_discarded .eth H n f₁ e₁ h₁ i₁⟩
+
+/-- Raw IP: the hypothesis is exactly that the parser's Ethernet strategy does not fire. -/
+theorem affinity_wire_raw (H : HashIn → Nat) (n : Nat) (f₁ f₂ : Bytes) (e₁ e₂ : Ep)
+    (h₁ : tryEthernet f₁ = none) (h₂ : tryEthernet f₂ = none)
+    (i₁ : wireEndpoints .raw f₁ = some e₁) (i₂ : wireEndpoints .raw f₂ = some e₂) :
+    (e₁.src = e₂.src → workerTcp H n f₁ = workerTcp H n f₂) ∧
+    (SameConn e₁ e₂ → workerHttp H n f₁ = workerHttp H n f₂) ∧
+    (e₁ = e₂ → workerTls H n f₁ = workerTls H n f₂ ∧ (workerTls H n f₁).isSome) := by
+  have h₁ := (linkHonoured_raw f₁ e₁ i₁).2 h₁
+  have h₂ := (linkHonoured_raw f₂ e₂ i₂).2 h₂
+  refine ⟨affinity_wire_tcp .raw H n f₁ f₂ e₁ e₂ h₁ h₂ i₁ i₂,
+    affinity_wire_http .raw H n f₁ f₂ e₁ e₂ h₁ h₂ i₁ i₂, ?_⟩
+  rintro rfl
+  exact ⟨affinity_wire_tls .raw H n f₁ f₂ e₁ h₁ h₂ i₁ i₂, wire_tls_not_discarded .raw H n f₁ e₁ h₁ i₁⟩
+
+example : LinkHonoured .raw wRaw9a ∧ LinkHonoured .raw wRaw9b ∧
     wireEndpoints .raw wRaw9a = wireEndpoints .raw wRaw9b ∧ wireEndpoints .raw wRaw9a ≠ none := by decide
-example : ¬ KF.C18.wire .eth wOkA ∧ wireEndpoints .eth wOkA = analyzerEndpoints .http wOkA ∧
-    wireEndpoints .eth wOkA ≠ none := by decide
+-- raw IPv4 from 134.221.1.1 (bytes 12–13 = `86 dd`, 40 bytes): honoured, formerly class looksLikeEthernet
+example : LinkHonoured .raw wRaw134a ∧ LinkHonoured .raw wRaw134b ∧
+    (wireEndpoints .raw wRaw134a).map (·.src) = (wireEndpoints .raw wRaw134b).map (·.src) ∧
+    wireEndpoints .raw wRaw134a ≠ none := by decide
+example : wireEndpoints .eth wOkA = analyzerEndpoints .http wOkA ∧ wireEndpoints .eth wOkA ≠ none := by decide
+-- loopback `1e 00 00 00` (little-endian AF_INET6 = 30) + IPv6, formerly class nullFraming
+example : LinkHonoured .null wNull6a ∧ LinkHonoured .null wNull6b ∧
+    wireEndpoints .null wNull6a = wireEndpoints .null wNull6b ∧ wireEndpoints .null wNull6a ≠ none := by decide
 
-/-! ### known findings: witnesses (replayed on the crates as the first cases of the harness) -/
+/-! ### regressions: the witnesses of the former known-finding classes (first cases of the harness) -/
 
-/-- raw IPv4 from 8.0.1.1 (DESIGN §8 #18): well-formed raw frames of one connection, the hashers
-take bytes 12–13 (`08 00`) for an ethertype and hash the whole frame. -/
-theorem kf_looksLikeEthernet_wire_witness :
-    KF.C18.wire .raw wRaw8a ∧ wireEndpoints .raw wRaw8a = wireEndpoints .raw wRaw8b ∧
-    wireEndpoints .raw wRaw8a ≠ none ∧
-    hashInputTcp wRaw8a ≠ hashInputTcp wRaw8b ∧ workerTcp sumH 16 wRaw8a ≠ workerTcp sumH 16 wRaw8b ∧
-    workerHttp sumH 16 wRaw8a ≠ workerHttp sumH 16 wRaw8b := by decide
+/-- former KF.C18.looksLikeEthernet: raw IPv4 from 134.221.1.1, a bare SYN and its retransmission
+(40-byte frames, bytes 12–13 = `86 dd`): the analyzer decodes raw IPv4 with one source address; the
+hashers now do too (they used to hash the whole frame). -/
+theorem looksLikeEthernet_regression :
+    identityTcp wRaw134a = identityTcp wRaw134b ∧ identityTcp wRaw134a ≠ none ∧
+    hashInputTcp wRaw134a = hashInputTcp wRaw134b ∧ hashInputHttp wRaw134a = hashInputHttp wRaw134b ∧
+    hashInputTls wRaw134a = hashInputTls wRaw134b ∧ hashInputTls wRaw134a ≠ none ∧
+    hashInputHttp wRaw134a = hashInputHttp wRaw134Rev := by decide
 
-/-- raw IPv4 from 134.221.1.1, a bare SYN and its retransmission (40-byte frames): the analyzer
-decodes them as raw IPv4 with one source address, the hashers as Ethernet. -/
-theorem kf_looksLikeEthernet_witness :
-    KF.C18.seen .tcp wRaw134a ∧ identityTcp wRaw134a = identityTcp wRaw134b ∧
-    identityTcp wRaw134a ≠ none ∧ workerTcp sumH 16 wRaw134a ≠ workerTcp sumH 16 wRaw134b := by decide
+/-- former KF.C18.nullFraming: loopback frames, two segments and the reverse direction. -/
+theorem nullFraming_regression :
+    identityTcp wNull4a = identityTcp wNull4b ∧ identityTcp wNull4a ≠ none ∧
+    hashInputTcp wNull4a = hashInputTcp wNull4b ∧ hashInputHttp wNull4a = hashInputHttp wNull4b ∧
+    hashInputTls wNull4a = hashInputTls wNull4b ∧ hashInputTls wNull4a ≠ none ∧
+    hashInputHttp wNull4a = hashInputHttp wNull4Rev ∧
+    hashInputTls wNull6a = hashInputTls wNull6b ∧ hashInputTls wNull6a ≠ none := by decide
 
-theorem kf_nullFraming_witness :
-    KF.C18.seen .tcp wNull4a ∧ identityTcp wNull4a = identityTcp wNull4b ∧
-    identityTcp wNull4a ≠ none ∧ workerTcp sumH 16 wNull4a ≠ workerTcp sumH 16 wNull4b := by decide
-
-theorem kf_versionNibble_witness :
-    KF.C18.seen .tcp wNib5a ∧ identityTcp wNib5a = identityTcp wNib5b ∧
-    identityTcp wNib5a ≠ none ∧ workerTcp sumH 16 wNib5a ≠ workerTcp sumH 16 wNib5b := by decide
+/-- former KF.C18.versionNibble: ethertype 0800, version nibble 5 — analysed (and now hashed) by
+ethertype. -/
+theorem versionNibble_regression :
+    identityTcp wNib5a = identityTcp wNib5b ∧ identityTcp wNib5a ≠ none ∧
+    hashInputTcp wNib5a = hashInputTcp wNib5b ∧ hashInputHttp wNib5a = hashInputHttp wNib5b ∧
+    hashInputTls wNib5a = hashInputTls wNib5b ∧ hashInputTls wNib5a ≠ none := by decide
 
 /-- IHL = 0 (former class `KF.C18.ihlBelow5`, fixed by 68f354c): two segments of one connection
-now hash the ports the analyzer sees and reach the same worker. -/
+hash the ports the analyzer sees and reach the same worker. -/
 theorem ihl0_regression :
-    ¬ KF.C18.seen .http wIhl0a ∧ ¬ KF.C18.seen .http wIhl0b ∧
     analyzerEndpoints .http wIhl0a = analyzerEndpoints .http wIhl0b ∧
     analyzerEndpoints .http wIhl0a ≠ none ∧
     hashInputHttp wIhl0a = hashInputHttp wIhl0b ∧ hashInputTls wIhl0a = hashInputTls wIhl0b := by decide
 
-theorem full_tcp_fails : ¬ FullAffinityTcp := by
-  intro h
-  have w := kf_nullFraming_witness
-  cases hk : identityTcp wNull4a with
-  | none => exact w.2.2.1 hk
-  | some k => exact w.2.2.2 (h sumH 16 wNull4a wNull4b k (by decide) hk (w.2.1 ▸ hk))
+/-- What (B) still needs `LinkHonoured` for — a limit of `parse_packet`, which sniffs the link type
+from the bytes, not of the dispatch hash: a raw IPv4 frame from 8.0.1.1 of 40 bytes has `08 00` at
+bytes 12–13 and is *analysed* as Ethernet (protocol byte 0x50: not TCP, no analyzer looks at it). The
+hashers follow the parser; relative to the frame's RFC endpoints two segments still get different
+workers, but there is no analysis whose state could be split. -/
+theorem sniffing_limit_example :
+    ¬ LinkHonoured .raw wRaw8a ∧ (parsePacket wRaw8a).map (·.fr) = some .eth ∧
+    analyzerEndpoints .tcp wRaw8a = none ∧ analyzerEndpoints .http wRaw8a = none ∧
+    analyzerEndpoints .tls wRaw8b = none ∧
+    wireEndpoints .raw wRaw8a = wireEndpoints .raw wRaw8b ∧ wireEndpoints .raw wRaw8a ≠ none ∧
+    workerTcp sumH 16 wRaw8a ≠ workerTcp sumH 16 wRaw8b := by decide
 
 /-! ### tie to the source (mechanism T) -/
 open Huginn.Gen.Wire in
+/-- The literals of the repaired source, regenerated on every run, are the ones the model uses:
+`locate_ip` (whose whole shape the extractor matches), the way the three hashers consume it, the
+flow hashers' offsets, and `packet_parser.rs`. -/
 theorem gen_constants_match :
-    phEthGt = 14 ∧ phEthType4 = 0x0800 ∧ phEthType6 = 0x86DD ∧ phTcpMin = 20 ∧ phHttpMin = 40 ∧
-    phTlsMin = 40 ∧ phHttpIhlMul = 4 ∧ phHttpIhlMin = 20 ∧ phTlsIhlMul = 4 ∧ phTlsIhlMin = 20 ∧
+    -- locate_ip, Ethernet strategy
+    liEthMin = 14 ∧ liEthB0 = 12 ∧ liEthB1 = 13 ∧
+    liEthType4 = 0x0800 ∧ liEth4Need = 34 ∧ liEth4Off = 14 ∧ liEth4Ver = 4 ∧
+    liEthType6 = 0x86DD ∧ liEth6Need = 54 ∧ liEth6Off = 14 ∧ liEth6Ver = 6 ∧
+    -- raw IP strategy
+    liRawMin = 20 ∧ liRawIdx = 0 ∧ liRawShift = 4 ∧ liRaw4Nib = 4 ∧ liRaw4Off = 0 ∧ liRaw4Ver = 4 ∧
+    liRaw6Nib = 6 ∧ liRaw6Need = 40 ∧ liRaw6Off = 0 ∧ liRaw6Ver = 6 ∧
+    -- loopback strategy
+    liNullMin = 24 ∧ liNull0 = 0x1e ∧ liNull1 = 0 ∧ liNullIdx = 4 ∧ liNullShift = 4 ∧
+    liNull4Nib = 4 ∧ liNull4Off = 4 ∧ liNull4Ver = 4 ∧ liNull6Nib = 6 ∧ liNull6Need = 44 ∧ liNull6Off = 4 ∧
+    liNull6Ver = 6 ∧
+    -- the three hashers
+    phTcpV4Need = 16 ∧ phTcpV4From = 12 ∧ phTcpV4To = 16 ∧ phTcpV6Need = 24 ∧ phTcpV6From = 8 ∧
+    phTcpV6To = 24 ∧ phHttpMin = 40 ∧ phTlsMin = 40 ∧
+    phHttpIhlMul = 4 ∧ phHttpIhlMin = 20 ∧ phTlsIhlMul = 4 ∧ phTlsIhlMin = 20 ∧
+    -- packet_parser.rs
     ppEthMin = 14 ∧ ppEthOff = 14 ∧ ppRawMin = 20 ∧ ppNullMin = 24 ∧
     ppNull0 = 0x1e ∧ ppNull1 = 0 ∧ ppNullOff = 4 := by decide
+
+open Huginn.Gen.Wire in
+/-- The hashers' literals against the parser's (both regenerated): same minimum sizes, offsets and
+loopback signature; the extra length guards are the parser's offset plus pnet's minimum header size
+(`Ipv4Packet::new` 20, `Ipv6Packet::new` 40 — third-party constants of the model). -/
+theorem gen_locate_vs_parser :
+    liEthMin = ppEthMin ∧ liEth4Off = ppEthOff ∧ liEth6Off = ppEthOff ∧
+    liEth4Need = ppEthOff + 20 ∧ liEth6Need = ppEthOff + 40 ∧
+    liRawMin = ppRawMin ∧ liRaw6Need = 40 ∧
+    liNullMin = ppNullMin ∧ liNull0 = ppNull0 ∧ liNull1 = ppNull1 ∧ liNullIdx = ppNullOff ∧
+    liNull4Off = ppNullOff ∧ liNull6Off = ppNullOff ∧ liNull6Need = ppNullOff + 40 := by decide
 
 end Huginn.Props.C18
